@@ -19,8 +19,8 @@ import shutil
 
 ID = "C02"
 DRIVER = "drv_c02"
-LEAN_TARGETS = ["PharmpyProofs.C02.Properties", "PharmpyProofs.C02.AdvanProperties", "drv_c02"]
-PROPERTIES = ["PharmpyProofs/C02/Properties.lean", "PharmpyProofs/C02/AdvanProperties.lean"]
+LEAN_TARGETS = ["PharmpyProofs.C02.Properties", "PharmpyProofs.C02.AdvanProperties", "PharmpyProofs.C02.RecordProperties", "drv_c02"]
+PROPERTIES = ["PharmpyProofs/C02/Properties.lean", "PharmpyProofs/C02/AdvanProperties.lean", "PharmpyProofs/C02/RecordProperties.lean"]
 LEAN_SOURCES = ["PharmpyModel/Core/*.lean", "PharmpyModel/C02/*.lean", "PharmpyModel/Generated/PkConv.lean",
                 "PharmpyProofs/C02/*.lean", "Drivers/C02.lean"]
 TIME_LIMIT = {"quick": 900, "thorough": 3000}
@@ -59,6 +59,33 @@ TRANSFORMS = [
     ["set_mixed_mm_fo_elimination", {}], ["add_bioavailability", {}], ["remove_bioavailability", {}],
     ["set_ode_solver", {"solver": "LSODA"}], ["set_ode_solver", {"solver": "GL"}], ["set_proportional_error_model", {}],
     ["set_combined_error_model", {}], ["add_effect_compartment", {"expr": "linear"}], ["add_metabolite", {}],
+]
+COVOPS = [
+    ["add_covariate_effect", {"parameter": "CL", "covariate": "APGR", "effect": "cat2"}],
+    ["add_covariate_effect", {"parameter": "V", "covariate": "APGR", "effect": "cat2", "allow_nested": True}],
+    ["add_covariate_effect", {"parameter": "CL", "covariate": "FA1", "effect": "cat"}],
+    ["add_covariate_effect", {"parameter": "V", "covariate": "FA1", "effect": "cat2", "allow_nested": True}],
+    ["add_covariate_effect", {"parameter": "CL", "covariate": "APGR", "effect": "cat"}],
+    ["add_covariate_effect", {"parameter": "CL", "covariate": "WGT", "effect": "piece_lin", "allow_nested": True}],
+    ["add_covariate_effect", {"parameter": "V", "covariate": "WGT", "effect": "exp", "allow_nested": True}],
+    ["add_covariate_effect", {"parameter": "CL", "covariate": "WGT", "effect": "pow", "allow_nested": True}],
+    ["add_covariate_effect", {"parameter": "KA", "covariate": "APGR", "effect": "cat2"}],
+    ["add_covariate_effect", {"parameter": "VC", "covariate": "APGR", "effect": "cat2", "allow_nested": True}],
+    ["add_covariate_effect", {"parameter": "CL", "covariate": "SEX", "effect": "cat2"}],
+    ["add_covariate_effect", {"parameter": "V", "covariate": "VISI", "effect": "cat2"}],
+    ["remove_covariate_effect", {"parameter": "CL", "covariate": "APGR"}],
+    ["remove_covariate_effect", {"parameter": "V", "covariate": "APGR"}],
+    ["remove_covariate_effect", {"parameter": "CL", "covariate": "WGT"}],
+    ["remove_covariate_effect", {"parameter": "V", "covariate": "WGT"}],
+    ["remove_covariate_effect", {"parameter": "CL", "covariate": "FA1"}],
+    ["remove_covariate_effect", {"parameter": "V", "covariate": "FA1"}],
+    ["add_iov", {"occ": "FA1"}], ["add_iov", {"occ": "FA1", "list_of_parameters": ["CL"]}],
+    ["add_iov", {"occ": "APGR", "list_of_parameters": ["V"]}], ["add_iov", {"occ": "VISI", "list_of_parameters": ["V"]}],
+    ["remove_iov", {}], ["remove_iiv", {"to_remove": ["CL"]}], ["remove_iiv", {}],
+    ["add_iiv", {"list_of_parameters": "KA", "expression": "exp"}], ["add_iiv", {"list_of_parameters": "MAT", "expression": "exp"}],
+    ["set_proportional_error_model", {}], ["set_combined_error_model", {}], ["set_additive_error_model", {}],
+    ["add_lag_time", {}], ["remove_lag_time", {}], ["add_peripheral_compartment", {}], ["remove_peripheral_compartment", {}],
+    ["set_first_order_absorption", {}], ["set_instantaneous_absorption", {}],
 ]
 STARTS = ["pheno", "moxo", "basic_iv", "basic_oral", "a1t1", "a3t3", "a3t1", "a4t1", "a3t4", "a4t4", "a2t2",
           "cmt_a1t2", "cmt_a2t2", "cmt_a4t4"]
@@ -168,6 +195,67 @@ def gen_history(rng):
     return {"kind": "history", "start": start, "ops": ops, "seed": rng.randrange(1 << 30)}
 
 
+def gen_cov_history(rng):
+    """Statement-level histories: covariate effects (incl. ones printed as several logical IFs), IOV/IIV, error models,
+    interleaved with structural steps; code is generated after every step."""
+    start = rng.choice(["pheno", "pheno", "a2t2", "a1t1", "a4t4", "moxo", "cmt_a2t2"])
+    ops = [rng.choice(COVOPS) for _ in range(rng.randint(2, 5))]
+    return {"kind": "history", "start": start, "ops": ops, "seed": rng.randrange(1 << 30)}
+
+
+SYMS = ["TVCL", "TVV", "CL", "V", "KA", "S1", "CLAPGR", "VWGT", "X1", "X2"]
+EXPRS = ["THETA(1)*WGT", "THETA(2)", "TVCL*EXP(ETA(1))", "TVV*EXP(ETA(2))", "CL/V", "V*(1 + THETA(3))", "THETA(4)*(WGT - 1.3)",
+         "EXP(THETA(5)*(WGT - 1.3))", "CL*CLAPGR", "1", "X1 + 2*X2", "THETA(6)**2"]
+
+
+def gen_pw(rng):
+    """A Piecewise: several atomic values without else (printed as a RUN of logical IFs), or shapes printed as one node."""
+    cov = rng.choice(["APGR", "FA1", "VISI"])
+    k = rng.randint(2, 4)
+    kind = rng.choice(["multi-if", "multi-if", "multi-if", "block-else", "block-expr", "single"])
+    vals = [rng.choice(["1", "THETA(%d)" % rng.randint(1, 9), "CL", "0"]) for _ in range(k)]
+    if kind == "block-expr":
+        vals = ["THETA(%d)*WGT" % rng.randint(1, 9) for _ in range(k)]
+    if kind == "single":
+        k = 1
+    pairs = [[vals[i], f"Eq({cov}, {i + 1})"] for i in range(k)]
+    if kind == "block-else":
+        pairs.append([rng.choice(["1", "THETA(9)"]), "True"])
+    return "Piecewise(" + ", ".join(f"({v}, {c})" for v, c in pairs) + ")"
+
+
+def gen_record(rng):
+    lines = []
+    for _ in range(rng.randint(1, 7)):
+        r = rng.random()
+        if r < 0.5:
+            lines.append(f"{rng.choice(SYMS)} = {rng.choice(EXPRS)}")
+        elif r < 0.65:
+            lines.append(f"IF (APGR.LT.{rng.randint(2, 9)}) {rng.choice(SYMS)} = {rng.choice(EXPRS)}")
+        elif r < 0.75:
+            a, b = rng.choice(SYMS), rng.choice(SYMS)
+            lines.append(f"IF (FA1.EQ.1) THEN\n    {a} = {rng.choice(EXPRS)}\n    {b} = {rng.choice(EXPRS)}\nELSE\n    {a} = {rng.choice(EXPRS)}\nEND IF")
+        elif r < 0.9:
+            lines.append(f"; comment {rng.randint(0, 99)}")
+        else:
+            lines.append("")
+    edits = []
+    for _ in range(rng.randint(2, 4)):
+        step = []
+        for _ in range(rng.randint(1, 3)):
+            r = rng.random()
+            if r < 0.45:
+                step.append(["ins", rng.randint(0, 8), rng.choice(SYMS), gen_pw(rng) if rng.random() < 0.7 else rng.choice(EXPRS)])
+            elif r < 0.65:
+                step.append(["del", rng.randint(0, 8)])
+            elif r < 0.85:
+                step.append(["renumber", rng.randint(1, 6)])      # THETA(k) -> THETA(k+1) for k >= n, as removing/adding a theta does
+            else:
+                step.append(["mod", rng.randint(0, 8), rng.choice(EXPRS)])
+        edits.append(step)
+    return {"kind": "record", "text": "\n".join(lines), "edits": edits, "seed": rng.randrange(1 << 30)}
+
+
 def gen_branch(rng):
     """Several derivations from ONE parent object (siblings, as a model search makes them)."""
     start = rng.choice(CMT_STARTS) if rng.random() < 0.7 else rng.choice(STARTS)
@@ -183,10 +271,14 @@ def gen_cases(rng, n, tier):
         r = rng.random()
         if r < 0.35:
             out.append(gen_lcs(rng))
-        elif r < 0.72:
+        elif r < 0.60:
             out.append(gen_graph(rng))
-        elif r < 0.90:
+        elif r < 0.72:
+            out.append(gen_record(rng))
+        elif r < 0.82:
             out.append(gen_history(rng))
+        elif r < 0.92:
+            out.append(gen_cov_history(rng))
         else:
             out.append(gen_branch(rng))
     return out
@@ -231,6 +323,12 @@ def corpus_cases():
          "branches": [[["set_transit_compartments", {"n": 1}]], [["add_peripheral_compartment", {}], ["set_zero_order_absorption", {}]]], "seed": 17},
         {"kind": "history", "start": "cmt_a2t2", "ops": [["set_transit_compartments", {"n": 2}], ["add_peripheral_compartment", {}],
                                                            ["set_zero_order_absorption", {}], ["set_first_order_absorption", {}]], "seed": 18},
+        # a record whose statements are printed as runs of logical IFs, edited repeatedly
+        {"kind": "record", "text": "TVCL = THETA(1)*WGT\n; clearance\nCL = TVCL*EXP(ETA(1))\n\nV = THETA(2)",
+         "edits": [[["ins", 1, "CLAPGR", "Piecewise((1, Eq(APGR, 1)), (THETA(3), Eq(APGR, 2)), (THETA(4), Eq(APGR, 3)))"]],
+                   [["renumber", 2]], [["del", 1]]], "seed": 19},
+        {"kind": "history", "start": "pheno", "ops": [["add_iov", {"occ": "FA1"}], ["add_covariate_effect", {"parameter": "CL", "covariate": "WGT", "effect": "exp", "allow_nested": True}],
+                                                        ["remove_iov", {}]], "seed": 20},
     ]
 
 
@@ -258,6 +356,26 @@ def shrink(case):
                 if len(br[i]) > 1:
                     c = dict(case)
                     c["branches"] = br[:i] + [br[i][:j] + br[i][j + 1:]] + br[i + 1:]
+                    yield c
+    elif case["kind"] == "record":
+        ed = case["edits"]
+        for i in range(len(ed)):
+            if len(ed) > 1:
+                c = dict(case)
+                c["edits"] = ed[:i] + ed[i + 1:]
+                yield c
+        for i in range(len(ed)):
+            for j in range(len(ed[i])):
+                if len(ed[i]) > 1:
+                    c = dict(case)
+                    c["edits"] = ed[:i] + [ed[i][:j] + ed[i][j + 1:]] + ed[i + 1:]
+                    yield c
+        lines = case["text"].split("\n")
+        if "THEN" not in case["text"]:
+            for i in range(len(lines)):
+                if len(lines) > 1:
+                    c = dict(case)
+                    c["text"] = "\n".join(lines[:i] + lines[i + 1:])
                     yield c
     elif case["kind"] == "lcs":
         for key in ("old", "new"):
@@ -327,6 +445,9 @@ def worker_init():
     from pharmpy.model.external.nonmem import nmtran_parser as nm_parser  # noqa
     from pharmpy.model.external.nonmem import update as U  # noqa
     from harness.common import exprconv  # noqa
+    global create_record, code_record_mod
+    from pharmpy.model.external.nonmem.records.factory import create_record  # noqa
+    from pharmpy.model.external.nonmem.records import code_record as code_record_mod  # noqa
     from harness.common.paths import REPO_SRC, scratch_root  # noqa
 
 
@@ -399,7 +520,10 @@ def stmts_wire(before):
     out = []
     for s in before:
         if isinstance(s, Assignment):
-            e = exprconv.to_sexp(s.expression)
+            try:
+                e = exprconv.to_sexp(s.expression)
+            except exprconv.Unsupported:
+                e = 0       # only the symbols matter to the dep_assigns loop: they are attached below
             for extra in sorted(set(str(x) for x in s.rhs_symbols) - exprconv.sexp_syms(e)):
                 e = ["also", e, extra]
             out.append(["=", str(s.symbol), e])
@@ -738,23 +862,50 @@ def _close(a, b):
         return False
 
 
+def _candidates(*exprs):
+    """Constants each symbol is compared with (categories of covariates, cut points)."""
+    cand = {}
+    for e in exprs:
+        for rel in e.atoms(sympy.core.relational.Relational):
+            l, r = rel.lhs, rel.rhs
+            if l.is_Symbol and r.is_number:
+                cand.setdefault(l, set()).add(r)
+            elif r.is_Symbol and l.is_number:
+                cand.setdefault(r, set()).add(l)
+    return {k: sorted(v, key=float) for k, v in cand.items()}
+
+
+def _point(rng, syms, cand):
+    sub = {}
+    for x in syms:
+        if x in cand and rng.random() < 0.85:
+            c = rng.choice(cand[x])
+            sub[x] = sympy.nsimplify(c) + rng.choice([0, 0, 0, 0, 0, 0, 0, 0, 1, -1])
+        else:
+            sub[x] = sympy.Rational(rng.randint(1, 40), rng.randint(1, 9))
+    return sub
+
+
 def _eq(a, b, rng):
-    """Equality of two expressions at seeded rational points (exact where the value is rational, otherwise
-    30-digit evaluation; no symbolic simplification)."""
+    """Equality of two expressions at seeded rational points; symbols that are compared with constants (covariate
+    categories) take those constants and their neighbours (exact where the value is rational, otherwise 30-digit
+    evaluation; no symbolic simplification)."""
     if a is None or b is None:
         return a is None and b is None
     if a == b:
         return True
     syms = sorted(a.free_symbols | b.free_symbols, key=str)
     funcs = sorted(a.atoms(AppliedUndef) | b.atoms(AppliedUndef), key=str)
+    cand = _candidates(a, b)
+    need = 2 + min(10, 2 * sum(len(v) for v in cand.values()))
     good = 0
-    for _ in range(8):
-        sub = {x: sympy.Rational(rng.randint(1, 40), rng.randint(1, 9)) for x in syms}
+    for _ in range(need * 3):
+        sub = _point(rng, syms, cand)
         sub.update({f: sympy.Rational(rng.randint(1, 40), rng.randint(1, 9)) for f in funcs})
         try:
             va, vb = a.xreplace(sub), b.xreplace(sub)
             if va.has(sympy.nan, sympy.zoo, sympy.oo) or vb.has(sympy.nan, sympy.zoo, sympy.oo):
-                continue
+                continue   # no branch of a piecewise without else applies: the in-memory value is undefined there
             if va == vb:
                 good += 1
             else:
@@ -766,7 +917,7 @@ def _eq(a, b, rng):
                     return False
         except Exception:
             continue
-        if good >= 2:
+        if good >= need:
             return True
     return True if good else a.free_symbols == b.free_symbols
 
@@ -794,7 +945,9 @@ def compare_meaning(A, B, rng, route, with_dataset):
     gb = [r for r in B["rvs"] if r["level"] != "RUV"] + [r for r in B["rvs"] if r["level"] == "RUV"]
     sa = [(len(r["names"]), r["level"] == "RUV") for r in ga]
     sb = [(len(r["names"]), r["level"] == "RUV") for r in gb]
-    if sa != sb:
+    if route == "twin" and sa != sb:
+        return bad      # NONMEM-only dummies (DUMMYETA) are not part of the format-neutral twin: nothing to align
+    elif sa != sb:
         fail("rv-structure", f"random variable blocks differ: in memory {sa}, in code {sb}")
     else:
         for ra, rb in zip(ga, gb):
@@ -1030,6 +1183,16 @@ def run_history(case, drv):
                     mr = code_model_record(model)
                     if mr is not None and mr != cs.compartment_names:
                         mon.append({"cls": "model-record-order", "what": f"{label}: $MODEL lists {mr}, compartment numbering is {cs.compartment_names}"})
+            # ---- Mon: node index of the code records the next update_source will work from
+            for getter in ("get_pred_pk_record", "get_error_record"):
+                try:
+                    crec = getattr(model.internals.control_stream, getter)()
+                except Exception:
+                    crec = None
+                if crec is not None and hasattr(crec, "_statements") and hasattr(crec, "_index"):
+                    record_index_monitors(crec, len(crec._statements), f"{label} ${crec.name}", mon,
+                                          ignore_unindexed=len(model.dependent_variables) > 1)
+                    tags.append("record-index-checked")
             # ---- Mon: the generated code denotes the same model
             try:
                 A = meaning(model)
@@ -1201,7 +1364,182 @@ def run_branch(case, drv):
     return {"k": k, "mon": mon, "tags": tags, "nontrivial": done >= 2}
 
 
+def _is_assignment_node(node):
+    txt = str(node).split(";")[0]
+    return "=" in txt
+
+
+def record_index_monitors(rec, nstmts, label, mon, ignore_unindexed=False):
+    """Invariant of a code record on the real object: the index is a partition of the node list with consecutive
+    statement ranges, and every node that carries an assignment lies inside a span."""
+    idx = list(rec._index)
+    children = rec.root.children
+    pos, si, ok = 0, 0, True
+    for ni, nj, s0, s1 in idx:
+        if not (pos <= ni <= nj <= len(children) and s0 == si and s0 <= s1):
+            ok = False
+        pos, si = nj, s1
+    if not ok or si != nstmts:
+        mon.append({"cls": "record-index-not-partition", "what": f"{label}: index {idx} is not a partition of {len(children)} nodes / "
+                    f"{nstmts} statements"})
+        return
+    if ignore_unindexed:
+        return
+    covered = set()
+    for ni, nj, _, _ in idx:
+        covered.update(range(ni, nj))
+    for i, ch in enumerate(children):
+        if i not in covered and getattr(ch, "rule", None) == "statement" and _is_assignment_node(ch):
+            mon.append({"cls": "record-statement-node-outside-index", "what": f"{label}: node {i} ({str(ch).strip()!r}) assigns a "
+                        f"variable but belongs to no index entry {idx}: the next update will copy it through as if it were a comment"})
+            return
+
+
+def _seq_eval(stmts, sub):
+    """Sequential NM-TRAN evaluation: a Piecewise without a true branch leaves the previous value (0 if none)."""
+    env = dict(sub)
+    for st in stmts:
+        if not isinstance(st, Assignment):
+            continue
+        key = _sy(st.symbol)
+        v = _sy(st.expression).xreplace(env)
+        if v.has(sympy.nan) or isinstance(v, sympy.Piecewise):
+            v = env.get(key, sympy.Integer(0))
+        env[key] = v
+    return env
+
+
+def stmts_equivalent(a_stmts, b_stmts, rng):
+    """Do two statement lists compute the same final values (at covariate categories and random points)?"""
+    exprs = [_sy(st.expression) for st in list(a_stmts) + list(b_stmts) if isinstance(st, Assignment)]
+    targets = {_sy(st.symbol) for st in list(a_stmts) + list(b_stmts) if isinstance(st, Assignment)}
+    syms = sorted(set().union(*[e.free_symbols for e in exprs]) | targets, key=str) if exprs else []
+    cand = _candidates(*exprs) if exprs else {}
+    for _ in range(4 + min(12, 2 * sum(len(v) for v in cand.values()))):
+        sub = _point(rng, syms, cand)
+        ea, eb = _seq_eval(a_stmts, sub), _seq_eval(b_stmts, sub)
+        for t in sorted(targets, key=str):
+            va, vb = ea.get(t), eb.get(t)
+            if va is None or vb is None:
+                return f"{t} is assigned on one side only"
+            if va != vb:
+                try:
+                    if abs(complex(sympy.N(va - vb, 30))) > 1e-18 * max(1.0, abs(complex(sympy.N(va, 30)))):
+                        return f"{t} = {va} vs {vb} at {dict((str(k), v) for k, v in sub.items() if k in cand or str(k) in ('WGT',))}"
+                except Exception:
+                    pass
+    return None
+
+
+def apply_edits(stmts, step):
+    new = list(stmts)
+    for e in step:
+        if e[0] == "ins":
+            new.insert(min(e[1], len(new)), Assignment.create(e[2], e[3]))
+        elif e[0] == "del" and new:
+            del new[e[1] % len(new)]
+        elif e[0] == "mod" and new:
+            i = e[1] % len(new)
+            new[i] = Assignment.create(new[i].symbol, e[2])
+        elif e[0] == "renumber":
+            d = {Expr.symbol(f"THETA({k})"): Expr.symbol(f"THETA({k + 1})") for k in range(e[1], 12)}
+            new = [st.subs(d) for st in new]
+    return new
+
+
+def run_record(case, drv):
+    rng = random.Random(case["seed"])
+    k, mon, tags = [], [], ["kind=record"]
+    rec = create_record("$PK\n" + case["text"] + "\n")
+    old = list(rec.statements)
+    record_index_monitors(rec, len(old), "parsed record", mon, ignore_unindexed=True)
+    nodeid = {}
+    alive = []          # keep every node referenced: id() of a freed node may be reused by a generated one
+    done = 0
+    for n, step in enumerate(case["edits"]):
+        try:
+            new = apply_edits(old, step)
+        except Exception as e:
+            tags.append(f"edit-refused:{type(e).__name__}")
+            continue
+        if new == old:
+            continue
+        label = f"update {n + 1} ({' '.join(e[0] for e in step)})"
+        children = list(rec.root.children)
+        for ch in children:
+            if id(ch) not in nodeid:
+                nodeid[id(ch)] = len(nodeid)
+                alive.append(ch)
+        index = [list(e) for e in rec._index]
+        try:
+            newrec = rec.update_statements(Statements(new))
+        except Exception as e:
+            mon.append({"cls": "record-update-raises", "what": f"{label}: update_statements raised {type(e).__name__}: {e}"[:300]})
+            break
+        done += 1
+        tags.append(f"record-stmts={len(new)}")
+        # ---- K
+        if drv is not None:
+            pool = []
+
+            def code_of(st):
+                for i, t in enumerate(pool):
+                    if t == st:
+                        return i
+                pool.append(st)
+                return len(pool) - 1
+            oi, ni_ = [code_of(st) for st in old], [code_of(st) for st in new]
+            lens, defined = [], set()
+            for st, c in zip(new, ni_):
+                lens.append([c, len(rec._statement_to_nodes(set(defined), st, None, None))])
+                defined.add(st.symbol)
+            if any(ln[1] > 1 for ln in lens):
+                tags.append("multi-node-statement")
+            fallback = children.index(next(c for c in children if getattr(c, "rule", None) == "verbatim")) \
+                if any(getattr(c, "rule", None) == "verbatim" for c in children) else len(children)
+            ans = drv.ask(["update", [nodeid[id(c)] for c in children], index, fallback, oi, ni_, lens])
+            real_children = ["G" if id(c) not in nodeid else str(nodeid[id(c)]) for c in newrec.root.children]
+            real_index = [[str(x) for x in e] for e in newrec._index]
+            if ans and ans[0] == "err":
+                k.append(f"{label}: model {ans}, code completed")
+            else:
+                m_children = ["G" if int(x) >= 1000000 else x for x in ans[0]]
+                if m_children != real_children:
+                    k.append(f"{label}: new children: model {m_children} code {real_children}")
+                if ans[1] != real_index:
+                    k.append(f"{label}: new index: model {ans[1]} code {real_index} (nodes per new statement {lens})")
+            first = index[0][0] if index else fallback
+            real_groups = [[str(op), [str(code_of(st)) for st in sts], str(a), str(b)]
+                           for op, sts, a, b in code_record_mod._index_statements_diff(first, rec._index, iter(lcs.diff(old, new)))]
+            mg = drv.ask(["groups", first, index, oi, ni_])
+            if mg != real_groups:
+                k.append(f"{label}: _index_statements_diff: model {mg} code {real_groups}")
+        # ---- monitors on the real record
+        record_index_monitors(newrec, len(new), label, mon)
+        try:
+            reparsed = list(create_record(str(newrec)).statements)
+        except Exception as e:
+            mon.append({"cls": "record-text-unparsable", "what": f"{label}: the text of the updated record does not parse: {e}"[:300]})
+            reparsed = None
+        if reparsed is not None:
+            try:
+                diff_ = stmts_equivalent(new, reparsed, rng)
+            except exprconv.Unsupported:
+                diff_ = None
+            if diff_:
+                nary = any(len(c.args) > 2 for st in new if isinstance(st, Assignment)
+                           for c in _sy(st.expression).atoms(sympy.Or, sympy.And))
+                mon.append({"cls": "printer-nary-boolean-truncated" if nary else "record-text-differs-from-statements", "what": f"{label}: the record text no longer computes what its "
+                            f"statements say: {diff_}; text: {str(newrec)!r}"[:700]})
+        alive.extend(newrec.root.children)
+        rec, old = newrec, new
+    tags.append(f"updates-done={done}")
+    return {"k": k, "mon": mon, "tags": tags, "nontrivial": done >= 2}
+
+
 def run_case(case, drv):
+    if case["kind"] == "record":
+        return run_record(case, drv)
     if case["kind"] == "branch":
         return run_branch(case, drv)
     if case["kind"] == "lcs":
